@@ -17,6 +17,7 @@ of what its parts denote, a parallel the sum; `none` when a leaf has the zero de
 def FL.rval : FL α → Option (ZF α)
   | .leaf f => if canon f.den = [] then none else some (rOf f)
   | .num c => some (rScalar c)
+  | .other _ => none
   | .node k ps => if k.par then ps.rSumV else ps.rProdV
 def FLs.rProdV : FLs α → Option (ZF α)
   | .nil => some (rScalar 1)
@@ -35,16 +36,17 @@ end
 mutual
 /-- the output a structure of causal filters gives: a cascade feeds each part with the output of
 the previous one, a parallel adds the outputs of its parts to the same input -/
-def FL.applyS : FL α → List α → List α
+def FL.applyS (env : Nat → α → α) : FL α → List α → List α
   | .leaf f, xs => apply f xs
   | .num c, xs => scaleSig c xs
-  | .node k ps, xs => if k.par then ps.sumS xs (xs.map fun _ => 0) else ps.compS xs
-def FLs.compS : FLs α → List α → List α
+  | .other i, xs => xs.map (env i)
+  | .node k ps, xs => if k.par then ps.sumS env xs (xs.map fun _ => 0) else ps.compS env xs
+def FLs.compS (env : Nat → α → α) : FLs α → List α → List α
   | .nil, xs => xs
-  | .cons p t, xs => t.compS (p.applyS xs)
-def FLs.sumS : FLs α → List α → List α → List α
+  | .cons p t, xs => t.compS env (p.applyS env xs)
+def FLs.sumS (env : Nat → α → α) : FLs α → List α → List α → List α
   | .nil, _, acc => acc
-  | .cons p t, xs, acc => t.sumS xs (addSig acc (p.applyS xs))
+  | .cons p t, xs, acc => t.sumS env xs (addSig acc (p.applyS env xs))
 end
 
 mutual
@@ -52,6 +54,7 @@ mutual
 def FL.All (P : ZF α → Prop) : FL α → Prop
   | .leaf f => P f
   | .num _ => True
+  | .other _ => True
   | .node _ ps => ps.All P
 def FLs.All (P : ZF α → Prop) : FLs α → Prop
   | .nil => True
@@ -59,9 +62,11 @@ def FLs.All (P : ZF α → Prop) : FLs α → Prop
 end
 
 mutual
-/-- no filter list in the structure is empty (`numpoly` of an empty list is a TypeError of `reduce`) -/
+/-- no filter list in the structure is empty (`numpoly` of an empty list is a TypeError of `reduce`)
+and every part is linear (`numpoly` of a list with another callable is an AttributeError) -/
 def FL.Full : FL α → Prop
   | .node _ ps => ps ≠ .nil ∧ ps.Full
+  | .other _ => False
   | _ => True
 def FLs.Full : FLs α → Prop
   | .nil => True
